@@ -13,7 +13,6 @@ import (
 	"encoding/asn1"
 	"encoding/json"
 	"math/big"
-	"net/url"
 	"strings"
 
 	"github.com/go-jose/go-jose/v3/jwt"
@@ -52,12 +51,6 @@ func answerAsk(d *Driver, kind string, q M) any {
 			return nil
 		}
 		return M{"type": hx([]byte(cd.Type)), "challenge": hx([]byte(cd.Challenge)), "origin": hx([]byte(cd.Origin))}
-	case "urlHost":
-		u, err := url.Parse(string(unhx(q["s"].(string))))
-		if err != nil {
-			return nil
-		}
-		return M{"bytes": hx([]byte(u.Hostname()))}
 	case "sigVerify":
 		return M{"bool": sigVerify(q["scheme"].(string), crypto.Hash(num(q["hash"])), q["key"].(M), unhx(q["msg"].(string)), unhx(q["sig"].(string)))}
 	case "x509Parse":
